@@ -47,7 +47,7 @@ def FLOORS(tier):
     q = tier == "quick"
     f = {"kernel-calls:c_anneal_quso": 120 if q else 20000, "kernel-calls:c_anneal_puso": 120 if q else 20000,
          "boundary-contract-checks": 250 if q else 40000, "hook-index-checks": 10 ** 5, "reference-call-repeats": 8, "leak-probe-calls": 800,
-         "sanitizer-log-polls": 300, "refcount-objects-checked": 5000,
+         "sanitizer-log-polls": 300, "refcount-objects-checked": 5000, "threaded-calls": 144,
          "signal-during-call:interrupted": 3}
     for c in CLASSES:
         f["class:" + c] = ((3 if c == "huge-sparse" else 8) if c in BIG else 25) if q else (300 if c == "huge-sparse" else 1500)
@@ -471,11 +471,147 @@ def case(ctx, rng, idx):
                 return
     elif not A.check_results(ctx, cfg, res, tag="result:"):
         return
+    if cfg["type"] != "dict" and cfg["class"] not in BIG and not cfg["stale"] and rng.random() < 0.25:
+        if not reuse_after_clear(ctx, rng, cfg, w):
+            return
     lk = _state.get("last_kernel_args")
     if lk and lk[2] >= 2 and lk[3] >= 1:
         ctx.nontrivial((cfg["fn"], cfg["type"], sorted(cfg["terms"].items(), key=repr)[:40], sorted(cfg["kw"].items(), key=repr)))
     if cfg["class"] not in BIG:
         ctx.sample({"class": cfg["class"], "call": w}, limit=3)
+
+
+def reuse_after_clear(ctx, rng, cfg, w):
+    """the same model object lives on.  Matrix types: clear(), refilled with as many variables as before but a larger top label
+    (or fewer variables and a smaller one), annealed again -- N = max_index + 1 has to follow.  Labelled types: a variable
+    cancels, refresh(), a new variable arrives, annealed again -- the enumeration has to stay 0..n-1."""
+    m = cfg["model"]
+    try:
+        if cfg["matrix"]:
+            old = sorted(cfg["true_vars"])
+            nv = max(len(old), 2)
+            top0 = max(old) if old else 1
+            how = rng.choice(["same-count-larger-top", "same-count-larger-top", "fewer-smaller-top", "refresh-instead-of-clear"])
+            if how == "fewer-smaller-top":
+                labs = list(range(max(nv - 1, 2)))
+            else:
+                labs = list(range(nv - 1)) + [top0 + rng.choice([1, 7, 40])]
+            if how == "refresh-instead-of-clear":
+                for k in list(m):
+                    m[k] = 0
+                m.refresh()
+            else:
+                m.clear()
+            for a_, b_ in zip(labs, labs[1:]):
+                m[(a_, b_)] += rng.choice([1.0, -2.0, 0.5])
+            m[(labs[-1],)] += 1.5
+            note = "then %s and refilled over labels %r" % (how, labs)
+        else:
+            tv = sorted(cfg["true_vars"], key=repr)
+            if len(tv) < 2:
+                return True
+            how = rng.choice(["cancel-refresh-grow", "cancel-refresh-grow", "clear-and-rebuild-with-other-labels"])
+            new_ = "nv_after_refresh" if isinstance(tv[0], str) else (("nv", 9) if isinstance(tv[0], tuple) else 9000)
+            if how == "cancel-refresh-grow":
+                gone = rng.choice(tv[:-1] if rng.random() < 0.7 else tv)
+                for k in [k for k in m if gone in k]:
+                    m[k] -= m[k]
+                m.refresh()
+                m[(new_,)] += 2.0
+                note = "then every term of %r cancelled, refresh(), a term over the new variable %r" % (gone, new_)
+            else:
+                m.clear()
+                m[(new_,)] += 2.0
+                m[(tv[-1],)] += -1.0
+                note = "then clear() and a new model over %r, %r" % (new_, tv[-1])
+    except Exception as e:   # noqa
+        ctx.cat("reuse-after-clear:refill-raised-" + type(e).__name__)
+        return True
+    kind = cfg["kind"]
+    p2 = ref.from_raw(kind, dict(m))
+    tv2 = p2.vars()
+    kw2 = {"num_anneals": rng.choice([1, 3]), "anneal_duration": rng.choice([2, 20]), "seed": rng.choice([0, None]), "in_order": rng.random() < 0.5}
+    full2 = (set(range(max(tv2) + 1)) if tv2 else set()) if cfg["matrix"] else set(tv2)
+    cfg2 = dict(cfg, model=m, terms=dict(m), poly=p2, true_vars=tv2, full_keys=full2, kw=kw2)
+    w2 = dict(A.describe(cfg2), history=[w, note])
+    ctx.cat("reuse-after-clear:" + how)
+    _state["pending"] = []
+    try:
+        res2 = getattr(L.sim, cfg["fn"])(m, **kw2)
+    except Exception as e:   # noqa
+        ctx.cat("python-exception:" + type(e).__name__)
+        if isinstance(e, (SystemError, MemoryError)):
+            ctx.violation("c-boundary-exception:%s@%s" % (type(e).__name__, cfg["fn"]), "%s raised %r" % (cfg["fn"], e), w2)
+            return False
+        res2 = None
+    for name, errs in _state["pending"]:
+        ctx.violation("kernel-precondition:%s:%s" % (name, errs[0].split(" (")[0]), "%s called with arguments violating the kernel's precondition: %s" % (name, "; ".join(errs)), w2)
+    bad = bool(_state["pending"]) or poll_sanitizer_logs(ctx, w2)
+    c = A.counters()
+    if c is not None:
+        ctx.count("hook-index-checks", c[0])
+        if c[2] or c[1]:
+            ctx.violation("kernel-hook:" + ("index-out-of-bounds" if c[2] else "dE-mismatch"), "H2 hook: mismatches=%d bounds=%d on the refilled object" % (c[1], c[2]), w2)
+            bad = True
+    if bad:
+        return False
+    if res2 is not None and not A.check_results(ctx, cfg2, res2, tag="reuse-after-clear:result:"):
+        return False
+    return True
+
+
+def threads_probe(ctx):
+    """'any sequence of calls in one process' includes calls made from several threads: every thread owns its arguments (nothing is
+    shared between them at the Python level) and makes seeded calls on models of different sizes; each result must equal the
+    one the same call gives when nothing else runs.  (With the interpreter lock held through the kernels this is a serial
+    history in disguise; a kernel that gives the lock up must not keep anything between calls that another call can see.)"""
+    import threading
+
+    def jobs(t):
+        n = 6 + 9 * t
+        out = []
+        for rep in range(12):
+            out.append(("anneal_quso", {(i, i + 1): (1.0 if (i + t) % 3 else -2.0) for i in range(n + rep % 3)}, dict(num_anneals=3, anneal_duration=30, seed=11 + t)))
+            out.append(("anneal_qubo", {(i, (i + 2) % (n + 1)): (1.5 if i % 2 else -1.0) for i in range(n)}, dict(num_anneals=2, anneal_duration=20, seed=5 + t, in_order=False)))
+            out.append(("anneal_puso", {(i, i + 1, i + 2): (1.0 if i % 2 else -0.5) for i in range(n - 2)}, dict(num_anneals=2, anneal_duration=15, seed=3 + t)))
+        return out
+
+    def run(job):
+        fn, model, kw = job
+        r = getattr(L.sim, fn)(dict(model), **dict(kw))
+        return [(sorted(x.state.items()), x.value) for x in r]
+    NT = 4
+    serial = [[run(j) for j in jobs(t)] for t in range(NT)]
+    got = [None] * NT
+    errs = []
+
+    def worker(t):
+        try:
+            got[t] = [run(j) for j in jobs(t)]
+        except BaseException as e:   # noqa
+            errs.append(repr(e))
+    import sys
+    old_sw = sys.getswitchinterval()
+    sys.setswitchinterval(1e-5)
+    try:
+        ths = [threading.Thread(target=worker, args=(t,)) for t in range(NT)]
+        for th in ths:
+            th.start()
+        for th in ths:
+            th.join()
+    finally:
+        sys.setswitchinterval(old_sw)
+    ctx.count("threaded-calls", NT * 36)
+    A.counters()           # (the hook's counters are process-wide: whatever it saw belongs to no single call; discard)
+    _state["pending"] = []
+    if errs:
+        ctx.violation("threads:call-raised", "a call made from a thread raised %s" % errs[0], {"threads": NT})
+    elif got != serial:
+        t_ = next(i for i in range(NT) if got[i] != serial[i])
+        j_ = next(i for i in range(len(serial[t_])) if got[t_][i] != serial[t_][i])
+        ctx.violation("threads:seeded-result-differs-from-serial", "thread %d, call %d (%s, seed %r): %r while the same call alone gives %r" % (
+            t_, j_, jobs(t_)[j_][0], jobs(t_)[j_][2]["seed"], got[t_][j_][:1], serial[t_][j_][:1]), {"threads": NT})
+    poll_sanitizer_logs(ctx, {"phase": "threads-probe"})
 
 
 def leak_probe(ctx):
@@ -510,6 +646,8 @@ def leak_probe(ctx):
 def finish(ctx):
     ctx.idx = -1
     leak_probe(ctx)
+    if not os.environ.get("QV_C17_VALGRIND"):
+        threads_probe(ctx)
     again = reference_results()
     ctx.count("reference-call-repeats")
     if again != _state["ref"]:
